@@ -1,6 +1,7 @@
 package main
 
 import (
+	"strconv"
 	"fmt"
 	"go/constant"
 	"go/token"
@@ -145,9 +146,14 @@ func fieldAtoms(m map[string]string) func(ssa.Value) (string, bool) {
 				return n, true
 			}
 		}
-		if prm, ok := v.(*ssa.Parameter); ok {
-			if n, ok := m["param:"+prm.Name()]; ok {
-				return n, true
+		if prm, ok := v.(*ssa.Parameter); ok && prm.Parent() != nil {
+			// positional: "param#<index>" (independent of the parameter's name)
+			for i, q := range prm.Parent().Params {
+				if q == prm {
+					if n, ok := m["param#"+strconv.Itoa(i)]; ok {
+						return n, true
+					}
+				}
 			}
 		}
 		return "", false
@@ -658,7 +664,8 @@ func ruleRangeBuild(r *Run) {
 				o2.Fail(r.pos(ret.Pos()), "stepper is %s", describe(fs["stepper"], 0))
 			} else {
 				names := []string{rootName(sc.Call.Args[0]), rootName(sc.Call.Args[1])}
-				if names[0] != "start" || names[1] != "end" {
+				// RangeAggregation(iter, expr, start, end, step): positions 2 and 3
+				if len(rf.Params) != 5 || originValue(sc.Call.Args[0]) != ssa.Value(rf.Params[2]) || originValue(sc.Call.Args[1]) != ssa.Value(rf.Params[3]) {
 					bad = true
 					o2.Fail(r.pos(sc.Pos()), "newStepper(%s, %s, ..), expected (start, end, step)", names[0], names[1])
 				}
@@ -685,7 +692,7 @@ func ruleStepper(r *Run) {
 		return
 	}
 	bad := false
-	atom := fieldAtoms(map[string]string{"param:start": "T:start", "param:end": "T:end", "param:step": "step"})
+	atom := fieldAtoms(map[string]string{"param#0": "T:start", "param#1": "T:end", "param#2": "step"}) // newStepper(start, end, step)
 	for _, ret := range returnsOf(ns) {
 		var fs map[string]ssa.Value
 		if u, ok := ret.Results[0].(*ssa.UnOp); ok {
@@ -1163,9 +1170,11 @@ func ruleRangeDetails(r *Run) {
 		bad = true
 		os.Fail(r.pos(call.Pos()), "Limit is %s: a positive entry limit would cut samples out of later windows", describe(fs["Limit"], 0))
 	}
+	// SampleSelector(expr, start, end): positions 1 and 2 of the closure
 	for field, prm := range map[string]string{"Start": "start", "End": "end"} {
+		idx := map[string]int{"Start": 1, "End": 2}[field]
 		c, ok := fs[field].(*ssa.Call)
-		if !ok || len(c.Call.Args) != 1 || rootName(c.Call.Args[0]) != prm {
+		if !ok || len(c.Call.Args) != 1 || len(cl.Params) != 3 || originValue(c.Call.Args[0]) != ssa.Value(cl.Params[idx]) {
 			bad = true
 			os.Fail(r.pos(call.Pos()), "%s is %s, not derived from the %s the evaluator asked for", field, describe(fs[field], 0), prm)
 		}
